@@ -316,6 +316,31 @@ def mappingFromRecipe (tables : List TableInfo) (deps : List Dep) (decls : List 
   | .error e => .error e
   | .ok (_, _, ms) => .ok (addAfterStatements ms)
 
+/-! ### the frame of `TableInfo.fields` between parsing and mapping generation -/
+
+/-- An in-place write into a parse-time `TableInfo.fields` dict performed by the run (for instance by
+    an output stream that builds its header with `table.fields.setdefault(column, None)`). The code as
+    it is has none (pinned: `Gen.MappingGen.fieldsUsesOutsideParser`); the type exists to state what the
+    mapping depends on and why the frame condition is needed. -/
+structure FieldWrite where
+  table : String
+  column : String
+deriving DecidableEq, Repr
+
+/-- `tables[w.table].fields.setdefault(w.column, None)` -/
+def applyWrite (w : FieldWrite) (tables : List TableInfo) : List TableInfo :=
+  tables.map (fun t =>
+    if t.name == w.table && !t.fields.contains w.column then { t with fields := t.fields ++ [w.column] } else t)
+
+def applyWrites (ws : List FieldWrite) (tables : List TableInfo) : List TableInfo :=
+  ws.foldl (fun ts w => applyWrite w ts) tables
+
+/-- The mapping of a whole run: the mapping generator reads the table infos *after* the run, i.e.
+    after whatever the run wrote into them. -/
+def mappingOfRun (ws : List FieldWrite) (tables : List TableInfo) (deps : List Dep) (decls : List Decl) :
+    Except Err (List (String × Mapping)) :=
+  mappingFromRecipe (applyWrites ws tables) deps decls
+
 /-! ### continuation (dependencies only) -/
 
 /-- How `Globals.__setstate__` reads a key of the saved state (a `dict`). -/
